@@ -15,6 +15,7 @@ Ops (one per line):
   mstatus marker=MR status=cancelled              (proposed|finalized|active|cancelled|destroyed)
   msend from=A outs=B:s1|s2,C:s3                  (bank MsgMultiSend, one input, signed by `from`)
   mtransfer admin=A from=B to=C id=s1             (marker MsgTransfer of a scope token)
+  mkadd signer=A id=s1 supply=1 type=restricted forced=1 msg=afa   (marker MsgAddFinalizeActivateMarker (afa) / MsgAddMarker (add) for a marker on the scope token's denom; signer gets every permission)
   ask seller=A asset=s1 price=5                   (exchange MsgCreateAsk: 1 unit of the scope token for 5 `$c`, signed by `seller`)
   fill buyer=B order=1 price=5                    (exchange MsgFillAsks of one ask order, signed by `buyer`)
   cancel signer=A order=1                         (exchange MsgCancelOrder)
@@ -154,6 +155,9 @@ def parseOp (ws : List String) : Option Op :=
     pure (.msend (← kv rest "from") outs)
   | "mtransfer" :: rest => do
     pure (.mtransfer (← kv rest "admin") (← kv rest "from") (← kv rest "to") (← kv rest "id"))
+  | "mkadd" :: rest => do
+    pure (.mkadd (← kv rest "signer") (← kv rest "id") (← (kv rest "supply") >>= parseNat?)
+      ((kv rest "type").getD "coin" = "restricted") ((kv rest "forced").getD "0" = "1"))
   | "ask" :: rest => do
     pure (.ask (← kv rest "seller") (← kv rest "asset") (← (kv rest "price") >>= parseNat?))
   | "fill" :: rest => do
